@@ -94,6 +94,11 @@ ArgTok(s, t) ==
      ELSE ArgBind(s, s.pend, "flag", t))
   ELSE IF s.dd THEN ArgPositional(s, t)
   ELSE IF t = "--" THEN [s EXCEPT !.dd = TRUE]
+  \* every command has --help / -h, the top level also --version / -V, every command with subcommands a `help` subcommand:
+  \* the line is not a command to carry out but a request for text (status 0, the text itself is not specified)
+  ELSE IF t \in {"--help", "-h"} THEN ArgErr(s, "help_requested")
+  ELSE IF s.path = <<>> /\ t \in {"--version", "-V"} THEN ArgErr(s, "version_requested")
+  ELSE IF t = "help" /\ ArgNode(s.path).subs # {} THEN ArgErr(s, "help_requested")
   ELSE IF dash2 THEN
     LET e    == IndexOfEq(b)
         name == Utf8ToStr(IF e = 0 THEN SubSeq(b, 3, n) ELSE SubSeq(b, 3, e - 1))
@@ -137,6 +142,8 @@ ArgFinish(s, env) ==
        ELSE IF ArgIsBound(r, "index") /\ ArgIsBound(r, "path") THEN ArgErr(r, "selectors_combined")
        ELSE r
 ParseArgv(argv, env) == ArgFinish(ArgFold(ArgS0, argv, 1), env)
+\* not refusals: requests for text
+TextRequests == {"help_requested", "version_requested"}
 \* the refusals that are usage errors proper (Wallet names them "usage_" \o reason)
 UsageReasons == {"unknown_option", "option_repeated", "value_missing", "value_looks_like_option", "unexpected_argument",
                  "unknown_subcommand", "argument_missing", "flag_with_value", "subcommand_missing"}
